@@ -468,6 +468,7 @@ package util
 //@   holds mpt.mutex W
 //@   requires node != nil
 //@   assigns nothing
+//@   ensures err != ErrValueNotPresent
 
 // Deep copies by encode/decode (value equality: C14). The copy is a new object with the same shape.
 //@ func (*FullNode).Clone returns (r)
@@ -696,8 +697,10 @@ package util
 //@ func (Node).GetVersion returns (o)
 //@   assigns nothing
 //@ func (OriginTrackerI).SetOrigin
+//@   opt devirt yes
 //@   assigns heap(OriginTracker.Origin), heap(OriginTracker.Version)
 //@ func (OriginTrackerI).SetVersion
+//@   opt devirt yes
 //@   assigns heap(OriginTracker.Version)
 //@ func (OriginTrackerI).GetOrigin returns (o)
 //@   assigns nothing
